@@ -68,6 +68,11 @@ func codecSeed(cfg *PropCfg, tier string, seed uint64, known []proto.KnownFindin
 	if err := w.InstrumentRepo(instr); err != nil {
 		return fmt.Errorf("instrumenting the working tree: %w", err)
 	}
+	if cfg.CLI {
+		if err := buildCLIs(w); err != nil {
+			return err
+		}
+	}
 	specs := population(cfg, tier, seed)
 	buildSpecs := specs
 	if cfg.TextOnly {
@@ -119,4 +124,20 @@ func verifyReplays(w *Work, node string, out *Outcome) {
 		out.Trouble = append(out.Trouble, fmt.Sprintf("violation %q did not reproduce from its replay file (exit %d): %s %s", rp.Violation.Signature, code, clipS(reports, 300), clipS(stderr, 300)))
 	}
 	out.Violations = kept
+}
+
+// buildCLIs compiles the two command-line tools from the instrumented copy (their os
+// calls routed through verif/simos) and tells the nodes where they are.
+func buildCLIs(w *Work) error {
+	dir := filepath.Join(w.Dir, "cli")
+	if err := os.MkdirAll(dir, 0o755); err != nil {
+		return err
+	}
+	for _, tool := range []string{"bebopc-go", "bebopfmt"} {
+		if out, err := Run(w.Repo, nil, "go", "build", "-o", filepath.Join(dir, tool), "./main/"+tool); err != nil {
+			return fmt.Errorf("building %s from the working tree failed: %v\n%s", tool, err, clip(out))
+		}
+	}
+	os.Setenv("VERIF_CLI_DIR", dir)
+	return nil
 }
